@@ -146,6 +146,8 @@ def _make_relation(rng, kind, base, facts):
     elif kind == "order":
         rel["perm_seed"] = rng.randint(0, 2**31)
         rel["host"] = dict(gen.BASE_HOST, hashseed=rng.choice([0, 0, rng.randint(1, 2**32 - 1)]))
+    elif kind == "repeat":
+        rel["sched_seed"] = rng.randint(1, 2**31)  # same host, another seeded order of whatever the program runs in worker threads
     elif kind == "subset":
         names = sorted(s["name"] for s in base["world"]["sheets"])
         rel["asset"] = rng.choice(names)
@@ -272,9 +274,11 @@ def exec_case(case, facts, src=None):
             if kind == "repeat":
                 w1, f1 = core.layout_case("c17p", world, dict(opts), [])
                 worlds.append(w1)
-                res = runner.run(w1, f1, opts, host=case["host"], dump=True, keep_content=True, src=src)
+                res = runner.run(w1, f1, opts, host=dict(case["host"], sched_seed=rel.get("sched_seed", 0)), dump=True, keep_content=True, src=src)
                 stats["runs"] += 1
                 fired = True
+                if (res.get("child") or {}).get("sched_steps"):
+                    stats["probe:worker_tasks_scheduled"] = 1
                 vs = _compare_full(kind, ref, res, assets, opts.get("prefix") or "", opts.get("prefix") or "")
             elif kind == "host":
                 o2 = dict(opts, path_style=rel["path_style"], files_in=rel["files_in"])
